@@ -343,6 +343,29 @@ def r8_chain_direction(idx, r):
                    "closed rotations are replayed in the opposite direction of the recorded pattern") if bad else "")
 
 
+def r9_pool_names_after_renumbering(idx, r):
+    """'lookups by assembly and block name find every assembly and block in the core OR THE POOL under its current name':
+    Reactor.normalizeNames renumbers the core (whose own routine rebuilds the name tables from the core's children only) and
+    then the spent fuel pool; after the pool's assemblies were renamed the tables must be rebuilt by a routine that includes
+    the pool (regenAssemblyLists / _getAssembliesByName+_genBlocksByName), on the same path."""
+    f = idx.method("armi.reactor.reactors.Reactor", "normalizeNames")
+    if f is None:
+        raise AnchorMissing("Reactor.normalizeNames")
+    ren = [c for c in iter_calls(f.node) if call_attr(c) == "normalizeNames" and "sfp" in norm(c.func).lower()]
+    if not ren:
+        raise AnchorMissing("Reactor.normalizeNames: renumbering of the spent fuel pool")
+    reb = [c for c in iter_calls(f.node) if call_attr(c) in ("regenAssemblyLists", "_getAssembliesByName")]
+    fl = Flow(f.node, lambda n: ["pool-renamed"] if n in ren else []).run()
+    ok = any((fl.state_before(c) or {}).get("pool-renamed", (0, 0))[0] >= 1 for c in reb)
+    r.require(ok, "normalizeNames:tables-include-pool-after-renaming", f, node=ren[0],
+              msg="the pool's assemblies are renamed but the core's by-name tables are not rebuilt afterwards (the core's own rebuild covers core children only): "
+                  "pool assemblies and their blocks are not found under their current names")
+    # and the rebuilders that are used do include the pool
+    g = idx.method(CORE, "_getAssembliesByName")
+    r.require(g is not None and any(isinstance(c, ast.Call) and call_attr(c) == "getAssemblies" and any(k.arg == "includeSFP" and isinstance(k.value, ast.Constant) and k.value.value is True for k in c.keywords)
+                                    for c in ast.walk(g.node)), "_getAssembliesByName:includes-pool", g or f, msg="the assembly-name table must be built over core AND pool assemblies")
+
+
 def run(idx, chk):
     chk.explanation = (
         "C14: who may write childrenByLocator/assembliesByName/blocksByName; Core.add/removeAssembly touching every table exactly once on "
@@ -361,3 +384,5 @@ def run(idx, chk):
     chk.run_rule("R14.6", "Core.add performs every refusal test before registering the assembly", lambda r: r6_add_checks_first(idx, r), floor=2, necessary="a refused add must leave the core unchanged")
     chk.run_rule("R14.8", "repeat shuffle: the two sibling swap loops (load chains, closed loops) realise the same shift along a chain (exact simulation, lengths 2-6)", lambda r: r8_chain_direction(idx, r), floor=1,
                  necessary="'each assembly sits where the operation put it'")
+    chk.run_rule("R14.9", "after the pool's assemblies are renumbered the name tables are rebuilt over core and pool", lambda r: r9_pool_names_after_renumbering(idx, r), floor=2,
+                 necessary="'lookups by assembly and block name find every assembly and block in the core or the pool under its current name'")
